@@ -12,10 +12,11 @@ Model of the power operator.
 -/
 namespace CyVerif.C07
 
-/-- the `while (e) { t *= (e odd ? b : 1); b *= b; e >>= 1; }` loop on bit patterns modulo `m` -/
+/-- the `while (e) { t *= (e odd ? b : 1); e >>= 1; if (e) b *= b; }` loop on bit patterns modulo `m`
+(the squaring after the last bit is skipped since fix 'IntPow: no unused final squaring') -/
 def powLoop (m : Nat) (t b e : Nat) : Nat :=
   if h : e = 0 then t
-  else powLoop m ((t * (if e % 2 = 1 then b else 1)) % m) ((b * b) % m) (e / 2)
+  else powLoop m ((t * (if e % 2 = 1 then b else 1)) % m) (if e / 2 = 0 then b else (b * b) % m) (e / 2)
 termination_by e
 decreasing_by omega
 
